@@ -133,8 +133,9 @@ let junk : f = f_of_q junk_q
 
 let () =
   let ident = ref false in
+  let sparse_pc = ref false in
   let file = ref "" in
-  Array.iteri (fun i a -> if i > 0 then (if a = "--identity" then ident := true else file := a)) Sys.argv;
+  Array.iteri (fun i a -> if i > 0 then (if a = "--identity" then ident := true else if a = "--sparse-precond" then sparse_pc := true else file := a)) Sys.argv;
   let ic = if !file = "" then stdin else open_in !file in
   let buf = Buffer.create 65536 in
   (try while true do Buffer.add_channel buf ic 1 done with End_of_file -> ());
@@ -168,7 +169,7 @@ let () =
         let m = (match b.bG with Some (r, _, _) -> r | None -> 0) in
         if not !dead then begin
           out "op" "setup";
-          (match setup consts0 !ident junk !settings (nat_of_int n) (nat_of_int p) (nat_of_int m) (to_blocks b) with
+          (match setup consts0 !ident !sparse_pc junk !settings (nat_of_int n) (nat_of_int p) (nat_of_int m) (to_blocks b) with
            | Ok s -> (* the harness' factorisation-call counter is global: it is not reset by a repeated setup() *)
              let calls = (match !sv with Some o -> o.sv_calls | None -> O) in
              let s = { s with sv_calls = calls } in
@@ -183,7 +184,7 @@ let () =
           (match !sv with
            | None -> ()
            | Some s ->
-             (match update consts0 s (to_blocks b) reuse with
+             (match update consts0 !sparse_pc s (to_blocks b) reuse with
               | Ok s' -> sv := Some s'; dump_data s'.sv_data; dump_pc s'.sv_pc
               | Err e -> out "model_error" (err_name e); dead := true)) end;
         incr opno
